@@ -1,4 +1,5 @@
 let props : (string * (module Frame.PROP)) list = [
+  ("C01", (module C01));
   ("C09", (module C09));
   ("C10", (module C10));
   ("C11", (module C11));
